@@ -68,7 +68,7 @@ func genericRun(sp stagePlan) func(rep *Report, def *propDef) {
 		}
 		for i, cp := range sp.covers {
 			cats := cp.cats(rep.Seed*7919+int64(i), rep.Tier)
-			st, err := coverStage(cp.name, cats, cp.bounds, budget, 4)
+			st, err := coverStage(cp.name, cats, cp.bounds, budget, 4, rep.Tier == "thorough" && i == 0)
 			rep.takeCover(def, st, cats, err)
 		}
 		if sp.traces != nil {
